@@ -182,6 +182,14 @@ def _rsh_server(addrs):
         try:
             port = rdz(c)
             e = back(peer[0], int(port)) if port and int(port) > 0 else None
+            if mode == "closeearly":
+                # the host dies in the middle of the handshake: stderr channel opened, then the connection goes away
+                time.sleep(0.05)
+                c.close()
+                time.sleep(0.5)
+                if e:
+                    e.close()
+                return
             rdz(c); rdz(c); cmdline = rdz(c)
             if mode == "nostatus":
                 # accepts the request, then goes away without the one-byte status: the host could not be reached
@@ -274,9 +282,29 @@ def real_part(ctx, quick):
             dt2 = time.time() - t1
             if dt2 > 2 + 2 + 6:
                 problems.append((case, "<= 10 s", "%.1f s and %.1f s" % (dt, dt2), "the run took %.1f s (again %.1f s) although the command timeout is 2 s and the watchdog period 2 s" % (dt, dt2)))
+    # R1b: hosts that hang after having written particular amounts (a chunk ending exactly at the end of the 64-byte ring, ...)
+    pats = ["printf '%039d\\n' 0; sleep 0.3; printf '%025d' 0", "printf '%063d\\n' 0", "printf '%064d' 0; sleep 0.2; printf x",
+            "printf '%031d\\n' 0; sleep 0.2; printf '%033d' 0", "printf '%0999d\\n' 0; sleep 0.2; printf y"]
+    for rep in range(1 if quick else 4):
+        script = "case %h in " + " ".join("h%d) %s; sleep 30;;" % (k, p) for k, p in enumerate(pats)) + " *) echo out-%h;; esac"
+        t0 = time.time()
+        rc, o, e = real.run(["-R", "exec", "-f", "16", "-u", "2", "-w", "h[0-%d]" % (len(pats) + 2), "sh", "-c", script], timeout=30)
+        dt = time.time() - t0
+        nruns += 1
+        case = {"transport": "exec", "hosts": len(pats) + 3, "hung_after_bytes": [65, 64, 65, 65, 1001], "command_timeout": 2}
+        errt = e.decode("latin-1")
+        if rc == -999:
+            problems.append((case, "pdsh ends within command timeout + watchdog period", "still running after 30 s",
+                             "pdsh did not terminate although every hung host is covered by -u 2 (hosts hang after having written 64..1001 bytes)")); continue
+        for k in range(len(pats)):
+            if ("h%d: command timeout" % k) not in errt:
+                problems.append((case, "h%d reported as timed out" % k, errt[-300:], "hung host h%d (hangs after some output) is not reported on standard error" % k)); break
+        for k in range(len(pats), len(pats) + 3):
+            if ("h%d: out-h%d" % (k, k)) not in o.decode("latin-1"):
+                problems.append((case, "h%d: out-h%d" % (k, k), errt[-200:], "healthy host h%d did not get its output relayed" % k)); break
     # R2: rsh over loopback: one daemon never acknowledges (hang while connecting), connect timeout 1
     try:
-        socks = _rsh_server([("127.7.3.1", "ok"), ("127.7.3.2", "hang"), ("127.7.3.3", "ok"), ("127.7.3.4", "reset")])
+        socks = _rsh_server([("127.7.3.1", "ok"), ("127.7.3.2", "hang"), ("127.7.3.3", "ok"), ("127.7.3.4", "reset"), ("127.7.3.5", "closeearly")])
     except OSError as ex:
         ctx.notes.append("rsh loopback part skipped: %s" % ex)
         return nruns, problems
@@ -314,6 +342,26 @@ def real_part(ctx, quick):
                     problems.append((case, "output of %s" % a, (ot + et)[-300:], "healthy host %s did not get its output relayed" % a)); break
             if "127.7.3.4: " not in et:
                 problems.append((case, "127.7.3.4 reported", et[-300:], "a host that died mid-command (connection reset) is not reported on standard error under its own name")); break
+        # a host that dies during the handshake, contacted first and alone (-f 1): pdsh must survive it, report it and go on
+        shim = os.path.join(ctx.scratch, "slowwrite.so")
+        brc, _ = vlib.sh(["gcc", "-shared", "-fPIC", "-O1", os.path.join(vlib.VERIF, "harness", "slowwrite.c"), "-ldl", "-o", shim])
+        for rep in range(2 if quick else 6):
+            # second run: the pieces of pdsh's handshake are 150 ms apart, so the peer goes away between two of them
+            env = {"LD_PRELOAD": shim, "SLOWWRITE_MS": "150"} if (rep % 2 == 1 and brc == 0) else {}
+            rc, o, e = real.run(["-R", "rsh", "-f", "1", "-t", "3", "-w", "127.7.3.[5,1,3]", "true"], timeout=25, env=env)
+            nruns += 1
+            case = {"transport": "rsh", "fanout": 1, "hosts": ["127.7.3.5 closes the connection during the handshake", "127.7.3.1 ok", "127.7.3.3 ok"]}
+            ot, et = o.decode("latin-1"), e.decode("latin-1")
+            if rc == -999:
+                problems.append((case, "pdsh ends", "still running after 25 s", "pdsh did not terminate when a host died during the handshake")); continue
+            if rc < 0:
+                problems.append((case, "pdsh survives, reports 127.7.3.5, runs the others", "pdsh killed by signal %d" % -rc,
+                                 "a host dying during the rsh handshake killed the whole run (signal %d): no other host got its command" % -rc)); break
+            for a in ("127.7.3.1", "127.7.3.3"):
+                if ("%s: hello from %s" % (a, a)) not in ot:
+                    problems.append((case, "output of %s" % a, (ot + et)[-300:], "healthy host %s did not get its output relayed" % a)); break
+            if "127.7.3.5: " not in et:
+                problems.append((case, "127.7.3.5 reported", et[-300:], "a host that died during the handshake is not reported on standard error under its own name")); break
     finally:
         for l in socks:
             try:
